@@ -5,7 +5,7 @@ NOTES = ("Every check re-compiles coq/theories/Properties/<id>.v (theorems over 
 NOT_APPLICABLE = {}
 CLAIMS = {
     "C07": {
-        "text": "Theorems over the Fetch model for every env and canon (29, closed under the global context) on D07 (distinct dot-free entry names; nested multiples and further master "
+        "text": "Theorems over the Fetch model for every env and canon (30, closed under the global context) on D07 (distinct dot-free entry names; nested multiples and further master "
                 "occurrences allowed; no deprecated; stable choices; $-free) under the single oracle hypothesis H_default_canonical (for each .multiple entry k, canon of k fetched against "
                 "itself = canon the master reports for k): re-fetching a result as an object is a fixed point; a master copy, the master object itself (Python's identity skip modelled), "
                 "any master-like first source, or the master's own defaults M.fetch() as first source (C07_defaults_first, no well-formedness needed) change nothing (equality of outcomes incl. errors); fetching nothing = fetching the master; any history of such cycles leaves W unchanged; "
@@ -130,7 +130,8 @@ CLAIMS = {
                 "lines kept and the starred set characterised by the declarative predicate 'requested' (None clears; '+' names; last word naming k decides) (C11_selection, "
                 "C11_alternatives_kept, C11_last_occurrence_decides, C11_none_clears); errors characterised in both directions (unknown selected -> NotAChoice naming the value and "
                 "listing the master's alternatives; every error is such; unselected unknown names ignored); extraction: at most one name / master order / never empty when "
-                "mandatory; fetch-then-extract composition. Refutations by witness: F9 (upper-case '+' name), shadowed star ('x *x'), residual '*' outside wf.",
+                "mandatory; fetch-then-extract composition; the '+' form is read relative to the master: the complete unstarred list of the alternatives selects nothing, also for names containing '+' "
+                "(C11_full_list_selects_nothing, /repo 2097a6c; 21 theorems). Refutations by witness: F9 (upper-case '+' name), shadowed star ('x *x'), residual '*' outside wf.",
         "note": "Trusted: Coq kernel, extraction, driver, harness, hand-written model of choice_converters (fetch, from_words, as_words, __str__). No oracles. "
                 "wf_choice_master (names distinct up to case, no residual '*', not none/auto) is a stated hypothesis only where names matter.",
     },
